@@ -213,7 +213,7 @@ def r5_no_panic(ctx):
         edges = []
         for cc in conds.all():
             tt = cc.term
-            if cc.kind == "bool" and isinstance(tt, tuple) and tt[0] == "binop" and tt[1] in ("Gt", "Ge") and is_call_term(tt[2], "BytesMut::len") and var_name(tt[2][3][0]) == "buffer" and strip_bb(tt[3]) == strip_bb(n):
+            if cc.kind == "bool" and isinstance(tt, tuple) and tt[0] == "binop" and tt[1] in ("Lt", "Le") and is_call_term(tt[3], "BytesMut::len") and var_name(tt[3][3][0]) == "buffer" and strip_bb(tt[2]) == strip_bb(n):
                 edges += cc.edges_for(True)
         ok = bool(edges) and cfg.edges_dominate(edges, c.bb)
         ctx.ob("R04.5", "write_with_padding:slice-guard#%d" % i, ok, c.site, "%s by `size` is dominated by `buffer.len() > size`" % c.norm.split("::")[-1] if ok else
